@@ -1,7 +1,12 @@
 """K2 program differential, second generation: the Calc2 model (coq/Calc/Calc2Defs.v, ocaml handler
 "calc2") against the real library through harness/k2v2.hpp.  Reuses the expression generator, the
 callable table and the canonicalisation of tools/k2.py; adds
-  stage 1  lifetimes: `dtor <id>` of every leaf operation state, `root_dtor`, direct C02 monitor.
+  stage 1  lifetimes: `dtor <id>` of every leaf operation state, `root_dtor`, direct C02 monitor;
+  stage 2  execution contexts: every script event carries a context (`L0:v5@2`, `S@1`), harness schedulers
+           `sched{c}` with one FIFO per context run by `R<c>`, get_scheduler as a third query, and the
+           library's own compositions via / typed_via / on / with_scheduler_affinity: the C++ side calls the
+           real unifex function, the model side uses the Gallina definition over finally / sequence /
+           with_query_value / unstoppable / schedule.
 Development switches (never used by registered checks): VERIF_CALC2_DRIVER=<exe> runs a privately built
 model driver, VERIF_K2V2_HDR=<dir> takes k2v2.hpp from <dir> instead of harness/."""
 import hashlib, os, random, re
@@ -12,16 +17,71 @@ FNS = ("add", "mul", "throw", "throwif")
 
 
 # ------------------------------------------------------------------------------------------ generation
+NCTX = 4
+UN2 = ["withsched", "via", "tvia", "on", "wsav"]     # stage 2 unary forms
+
+
 class Gen2(k2.Gen):
-    pass
+    """k2.Gen plus the stage-2 forms.  Sched operations get ids from 100 up (never addressed by scripts)."""
+    def __init__(self, rng, max_leaves=4, kinds=None, p_new=0.3, wsa=False):
+        super().__init__(rng, max_leaves, kinds)
+        self.nsched = 0
+        self.p_new = p_new
+        self.un2 = UN2 if wsa else [k for k in UN2 if k != "wsav"]   # wsav needs a C++20 build
+
+    def sid(self):
+        self.nsched += 1
+        return 99 + self.nsched
+
+    def leafish(self, nbound):
+        if self.nsched < 4 and self.rng.random() < self.p_new * 0.5:
+            return ("sched", self.sid(), self.rng.randrange(NCTX))
+        return super().leafish(nbound)
+
+    def expr(self, size, nbound=0):
+        r = self.rng
+        if size > 1 and r.random() < self.p_new:
+            k = r.choice(self.un2)
+            if k != "withsched" and self.nsched >= 4:
+                k = "withsched"
+            c = r.randrange(NCTX)
+            if k == "withsched":
+                return (k, c, self.expr(size - 1, nbound))
+            i = self.sid()
+            return (k, i, c, self.expr(size - 1, nbound))
+        return super().expr(size, nbound)
+
+
+def subexprs(e):
+    return [x for x in e[1:] if isinstance(x, tuple) and x and isinstance(x[0], str) and x[0] not in FNS]
 
 
 def leaves(e):
     return k2.leaves(e)
 
 
+def scheds(e, acc=None):
+    """contexts of the schedule() operations of e (explicit and inside via/on/wsav)"""
+    acc = [] if acc is None else acc
+    if e[0] == "sched": acc.append(e[2])
+    if e[0] in ("via", "tvia", "on", "wsav"): acc.append(e[2])
+    for x in subexprs(e):
+        scheds(x, acc)
+    return acc
+
+
 def to_model(e):
-    return k2.to_model(e)
+    k = e[0]
+    if k == "sched": return "(sched %d %d)" % (e[1], e[2])
+    if k == "withsched": return "(withsched %d %s)" % (e[1], to_model(e[2]))
+    if k in ("via", "tvia", "on", "wsav"): return "(%s %d %d %s)" % (k, e[1], e[2], to_model(e[3]))
+    if k in ("just", "jerr", "var", "leaf", "leafn"): return "(%s %d)" % (k, e[1])
+    if k == "jdone": return "(jdone)"
+    if k in ("then", "uerr", "udone"):
+        return "(%s (%s) %s)" % (k, " ".join(map(str, e[1])), to_model(e[2]))
+    if k == "withq": return "(withq %d %d %s)" % (e[1], e[2], to_model(e[3]))
+    if k in ("unstop", "mat", "dopt"): return "(%s %s)" % (k, to_model(e[1]))
+    return "(%s %s %s)" % (k, to_model(e[1]), to_model(e[2]))
 
 
 def to_cpp(e, bound=()):
@@ -30,6 +90,12 @@ def to_cpp(e, bound=()):
     if k == "leaf": return "k2v2::leaf{%d,false}" % e[1]
     if k == "leafn": return "k2v2::leaf{%d,true}" % e[1]
     if k in ("just", "jerr", "jdone", "var"): return k2.to_cpp(e, bound)
+    if k == "sched": return "k2v2::sched_leaf(%d)" % e[2]
+    if k == "withsched": return "unifex::with_query_value(%s, unifex::get_scheduler, k2v2::sched{%d})" % (to_cpp(e[2], bound), e[1])
+    if k == "via": return "unifex::via(%s, k2v2::sched{%d})" % (to_cpp(e[3], bound), e[2])
+    if k == "tvia": return "unifex::typed_via(%s, k2v2::sched{%d})" % (to_cpp(e[3], bound), e[2])
+    if k == "on": return "unifex::on(k2v2::sched{%d}, %s)" % (e[2], to_cpp(e[3], bound))
+    if k == "wsav": return "k2v2::wsa(%s, k2v2::sched{%d})" % (to_cpp(e[3], bound), e[2])
     if k == "then": return "unifex::then(%s, %s)" % (to_cpp(e[2], bound), k2.cpp_fn(e[1]))
     if k == "uerr": return "k2::uerr(%s, %s)" % (to_cpp(e[2], bound), k2.cpp_fn(e[1]))
     if k == "udone": return "k2::udone(%s, %s)" % (to_cpp(e[2], bound), k2.cpp_fn(e[1]))
@@ -55,7 +121,47 @@ def to_cpp(e, bound=()):
 
 
 def gen_scripts(rng, e, n):
-    return k2.gen_scripts(rng, e, n)
+    """k2.gen_scripts' shapes with a context on every event and R<c> events for the queued schedule()s"""
+    ls = sorted(set(leaves(e)))
+    ctxs = scheds(e)
+    multi = bool(ctxs) or rng.random() < 0.5
+    def at():
+        return "@%d" % rng.randrange(NCTX) if multi and rng.random() < 0.7 else ""
+    def ev(i):
+        c = rng.random()
+        if c < 0.6: return "L%d:v%d%s" % (i, rng.randint(0, 12), at())
+        if c < 0.8: return "L%d:e%d%s" % (i, rng.randint(30, 39), at())
+        return "L%d:d%s" % (i, at())
+    def rn():
+        return "R%d" % (rng.choice(ctxs) if ctxs and rng.random() < 0.85 else rng.randrange(NCTX))
+    out = []
+    for _ in range(n):
+        prestop = 1 if rng.random() < 0.12 else 0
+        body = []
+        order = ls[:]
+        rng.shuffle(order)
+        for i in order:
+            if rng.random() < 0.85:
+                body.append(ev(i))
+        if rng.random() < 0.1 and ls:
+            body.append(ev(rng.choice(ls)))
+        for _ in range(len(ctxs) + (1 if ctxs and rng.random() < 0.3 else 0)):
+            if rng.random() < 0.8:
+                body.insert(rng.randint(0, len(body)), rn())
+        if rng.random() < 0.55:
+            body.insert(rng.randint(0, len(body)), "S" + at())
+        if rng.random() < 0.85:                       # drain: complete / run whatever got started later
+            for _ in range(3):
+                for c in sorted(set(ctxs)):
+                    body.append("R%d" % c)
+                for i in ls:
+                    body.append(ev(i))
+            for c in sorted(set(ctxs)) * 2:
+                body.append("R%d" % c)
+        out.append((prestop, " ".join(body)))
+    out.append((0, ""))
+    out.append((0, "S"))
+    return out
 
 
 # ------------------------------------------------------------------------------------------ TU emission
@@ -83,7 +189,42 @@ def canon(trace):
     return k2.canon(";".join(evs) + " # " + tail)
 
 
-def monitor(trace):
+def canon_weak(trace):
+    """Fallback canonical form for traces that differ only in the order in which the callbacks of ONE stop
+    source ran (most-recently-registered first in the library; the structural model does not track
+    registration order, see k2.canon): the sequence of all events other than `stopseen`, plus, per leaf,
+    the order of that leaf's own events (start, stopseen, dtor)."""
+    body, _, tail = trace.partition(" # ")
+    evs = [x for x in body.split(";") if x and not x.startswith("fin ") and not x.startswith("leak ")]
+    seq = [x for x in evs if not x.startswith("stopseen ")]
+    per = {}
+    for x in evs:
+        w = x.split()
+        if w[0] in ("start", "stopseen", "dtor") and len(w) > 1:
+            per.setdefault(w[1], []).append(w[0])
+    return (tuple(seq), tuple(sorted((k, tuple(v)) for k, v in per.items())), tail)
+
+
+def monitor_ctx(e, evs):
+    """C11 (first half) on the implementation trace: the root of via(s, sched c) completes on context c;
+    a leaf directly under on(sched c, .) is started on context c with get_scheduler = c."""
+    if e[0] in ("via", "tvia", "wsav"):
+        for x in evs:
+            if x.startswith("root ") and not x.endswith("ctx=%d" % e[2]):
+                return "C11: %s on context %d completed its receiver elsewhere: %s" % (e[0], e[2], x)
+    def walk(t):
+        if t[0] == "on" and t[3][0] in ("leaf", "leafn"):
+            for x in evs:
+                if x.startswith("start %d " % t[3][1]) and not x.endswith("sch=%d ctx=%d" % (t[2], t[2])):
+                    return "C11: on(sched %d, leaf %d) started the leaf as: %s" % (t[2], t[3][1], x)
+        for s in subexprs(t):
+            r = walk(s)
+            if r: return r
+        return ""
+    return walk(e)
+
+
+def monitor(trace, e=None):
     """the properties themselves on an implementation trace.
     C01 at most one root completion; C04 no live registration on the root token at completion;
     C02 (lifetimes): every started leaf operation state is destroyed at most once, exactly once when the
@@ -100,7 +241,7 @@ def monitor(trace):
             return "C04: %s live stop-callback registration(s) on the receiver's token at completion" % m.group(1)
     if roots:
         after = evs[evs.index(roots[0]) + 1:]
-        bad = [x for x in after if not (x == "skip" or x == "root_dtor" or x.startswith("dtor "))]
+        bad = [x for x in after if not (x == "skip" or x == "root_dtor" or x.startswith("dtor ") or x.startswith("sdtor "))]
         if bad:
             return "C02: activity after the root completed: %r" % bad[:3]
     # per-leaf life cycle: start -> (stopseen)* -> fin -> dtor ; a leaf id may be re-started after its dtor
@@ -133,6 +274,13 @@ def monitor(trace):
         alive = sorted(i for i, s in state.items() if s != "dead")
         if alive:
             return "C02: leaf operation state(s) %s not destroyed with the root operation" % ",".join(alive)
+        if sum(1 for x in evs if x.startswith("enq ")) != sum(1 for x in evs if x.startswith("sdtor ")):
+            return "C02: schedule() operations started and destroyed differ in number"
+    for x in evs:
+        if x.startswith("sdtor_early") or x.startswith("sdtor_ns"):
+            return "C02: schedule() operation state: " + x
+    if e is not None:
+        return monitor_ctx(e, evs)
     return ""
 
 
@@ -142,6 +290,15 @@ CORPUS = list(k2.CORPUS) + [
     ("letd", ("swhen", ("leaf", 0), ("leafn", 1)), ("leaf", 2)),
     ("dopt", ("wall", ("leafn", 0), ("leaf", 1))),
     ("fin", ("seq", ("leaf", 0), ("leaf", 1)), ("wall", ("leaf", 2), ("leafn", 3))),
+    # stage 2
+    ("via", 100, 1, ("leaf", 0)),
+    ("tvia", 100, 2, ("wall", ("leaf", 0), ("leafn", 1))),
+    ("on", 100, 3, ("leaf", 0)),
+    ("on", 100, 1, ("via", 101, 2, ("swhen", ("leaf", 0), ("leafn", 1)))),
+    ("wsav", 100, 1, ("letv", ("leaf", 0), ("on", 101, 2, ("leaf", 1)))),
+    ("wall", ("sched", 100, 1), ("on", 101, 1, ("leafn", 0))),
+    ("swhen", ("via", 100, 1, ("leaf", 0)), ("sched", 101, 1)),
+    ("letv", ("sched", 100, 2), ("withsched", 3, ("leaf", 0))),
 ]
 
 
@@ -170,10 +327,12 @@ def run_k2v2(chk, n_tus, cases_per_tu, scripts_per_case, size_range=(2, 8), cfg=
     for t in range(n_tus):
         cases = []
         for c in range(cases_per_tu):
-            g = (gen or Gen2)(rng)
+            g = gen(rng) if gen else Gen2(rng, wsa=cfg.endswith("20"))
             cases.append(g.expr(rng.randint(*size_range)))
         tus.append(cases)
     corpus = CORPUS if corpus is None else corpus
+    if not cfg.endswith("20"):
+        corpus = [c for c in corpus if "wsav" not in to_model(c)]
     if corpus:
         tus = [corpus[i:i + cases_per_tu] for i in range(0, len(corpus), cases_per_tu)] + tus
     cd = vlib.cache_dir()
@@ -190,7 +349,8 @@ def run_k2v2(chk, n_tus, cases_per_tu, scripts_per_case, size_range=(2, 8), cfg=
         jobs.append(("%s_%s" % (tag, h), cfg, p, extra, True))
     built = vlib.build_many(jobs)
     stats = chk.cov.setdefault("k2v2", {"programs": 0, "scripts": 0, "kinds": {}, "roots_completed": 0,
-                                        "compile_failures": 0, "disagreements": 0, "dtor_events": 0})
+                                        "compile_failures": 0, "disagreements": 0, "dtor_events": 0,
+                                        "callback_order_only": 0, "sched_runs": 0, "ctx_nonzero_events": 0})
     for (name, cfgn, p, _, _), cases in zip(jobs, tus):
         exe, err = built[(name, cfgn)]
         if err:
@@ -218,8 +378,13 @@ def run_k2v2(chk, n_tus, cases_per_tu, scripts_per_case, size_range=(2, 8), cfg=
             if "root " in io:
                 stats["roots_completed"] += 1
             stats["dtor_events"] += io.count("dtor ")
-            mon = monitor(io) if not io.startswith("CRASH") else "crash: " + io[:200]
+            stats["sched_runs"] += io.count("sdtor ")
+            stats["ctx_nonzero_events"] += len(re.findall(r"ctx=[1-9]", io))
+            mon = monitor(io, e) if not io.startswith("CRASH") else "crash: " + io[:200]
             ci, cm = (canon(io), canon(mo)) if not io.startswith("CRASH") else (io, mo)
+            if ci != cm and not mon and not io.startswith("CRASH") and canon_weak(io) == canon_weak(mo):
+                stats["callback_order_only"] += 1      # same run up to the callback order of one stop source
+                cm = ci
             if ci == cm and not mon:
                 chk.cov["traces_validated_against_impl"] += 1
                 if nontriv:
@@ -242,4 +407,7 @@ def run_k2v2(chk, n_tus, cases_per_tu, scripts_per_case, size_range=(2, 8), cfg=
 
 def standard_k2v2(chk):
     quick = chk.tier == "quick"
-    return run_k2v2(chk, n_tus=6 if quick else 40, cases_per_tu=8, scripts_per_case=24 if quick else 60)
+    run_k2v2(chk, n_tus=6 if quick else 40, cases_per_tu=8, scripts_per_case=24 if quick else 60)
+    # C++20 build: the same plus with_scheduler_affinity (its header needs coroutine support)
+    return run_k2v2(chk, n_tus=1 if quick else 6, cases_per_tu=8, scripts_per_case=24 if quick else 60, cfg="plain20",
+                    corpus=[c for c in CORPUS if "wsav" in to_model(c)] + [CORPUS[0]], seed_salt=1000)
